@@ -64,6 +64,18 @@ def gen_case(rng, tier, idx):
                 p_ = rng.dirichlet(np.ones(n_) * 0.5)
                 meas.append(dict(Q=np.eye(n_), kind='identity', y=N * p_ + rng.normal(0, sg, n_), sigma=sg, proj=(a_,)))
         total = None if rng.rand() < 0.4 else float(gen.pick(rng, [N, N, 1.0, 1e6, 3.5]))
+        if conflict and rng.rand() < 0.5 and shape[0] >= 2:
+            # one marginal measured twice, accurately and r times less accurately, the answers pulling away from the
+            # uniform weighting in opposite directions with misfits in ratio 1 : r^u.  The right trade-off follows the
+            # inverse variances; weighting by 1/sigma or 1/sigma^4 instead moves the wrong way for u = 1.5 resp. 3.
+            T0 = float(total if total is not None else N)
+            pub = np.bincount(rows[:, 0], minlength=shape[0]) / float(npub)
+            e_ = rng.normal(size=shape[0])
+            d_ = 0.05 * T0 * (e_ - e_.mean())
+            s1, r_ = float(gen.pick(rng, [0.5, 1.0, 2.0])), float(gen.pick(rng, [2.0, 3.0]))
+            k_ = r_ ** float(gen.pick(rng, [1.5, 3.0]))
+            meas = [dict(Q=np.eye(shape[0]), kind='identity', y=T0 * pub + d_, sigma=s1, proj=(attrs[0],)),
+                    dict(Q=np.eye(shape[0]), kind='identity', y=T0 * pub - k_ * d_, sigma=s1 * r_, proj=(attrs[0],))]
         calls.append(dict(meas=meas, total=total))
     return dict(attrs=attrs, shape=shape, rows=rows, public_class=pc, N=N, calls=calls,
                 spellings=gen.pick(rng, ['dense', 'csr']), metric=gen.pick(rng, ['L2', 'L2', 'L2', 'L1']))
